@@ -16,7 +16,9 @@ RULE = ("case = generic SDE (incl. stiff ones: diffusion scale up to 5, drift sc
         "halved in floating point); accepted steps are contiguous, strictly advance, stay inside [ts[0], ts[-1]] and end "
         "exactly at ts[-1]; no trial is shorter than dt_min unless it ends at ts[-1]; the error norm recorded equals an "
         "independent mixed rtol/atol RMS recomputation from the step outputs; accept <=> (err <= 1 or controller at "
-        "dt_min); a rejection strictly shrinks the step; returned values are the two-half-step states (bit-exact at "
+        "dt_min); a rejection strictly shrinks the step; every accepted state equals two half steps taken by the harness "
+        "itself from the previous accepted state and extra solver state (independent driver, 1e-12); returned values are "
+        "the two-half-step states (bit-exact at "
         "ts[-1], linear interpolants inside); the number of trials stays below the termination bound; no NaN/crash. "
         "Non-trivial = >= 1 rejection or >= 1 dt_min clamp, and >= 3 accepted steps; distinct = distinct canonical JSON.")
 ASSUMPTIONS = ["controller decisions are observed by wrapping the two module functions for the duration of a case "
@@ -218,6 +220,31 @@ def run_case(case):
         if not e <= 1e-6:
             return fail("returned_values", f"ys[-1] differs from the last two-half-step state by {e:.3e} although the "
                                            f"remaining step was only {accepted[-1][1] - accepted[-1][0]:.3e} long")
+    # independent driver over the accepted steps: the harness steps the same solver class itself (two half steps per
+    # accepted trial, extra solver state threaded only through accepted steps) and must land on the recorded states
+    from torchsde._core import base_sde, methods as _methods
+    bm_drv = inner      # the very Brownian object of the run: re-asking an interval returns the same values (C05)
+    cls = _methods.select(combo["method"], spec["sde_type"])
+    drv = cls(sde=base_sde.ForwardSDE(sde), bm=bm_drv, dt=dt, adaptive=True, rtol=rtol, atol=atol, dt_min=dt_min,
+              options=dict(combo["options"]))
+    with torch.no_grad():
+        st_y = y0
+        st_e = drv.init_extra_solver_state(ts[0], y0)
+        for (a, b, y12), tr in zip(accepted, [t for t in trials if (t[0], t[1]) in {(x[0], x[1]) for x in accepted}]):
+            ta_, tb_ = torch.tensor(a, dtype=torch.float64), torch.tensor(b, dtype=torch.float64)
+            if y12 is None:
+                st_y, st_e = drv.step(ta_, tb_, st_y, st_e)
+                continue
+            tm_ = 0.5 * (ta_ + tb_)
+            ym, em = drv.step(ta_, tm_, st_y, st_e)
+            st_y, st_e = drv.step(tm_, tb_, ym, em)
+            checks += 1
+            e = float((st_y - y12).abs().max()) / max(1.0, float(y12.abs().max()))
+            if not e <= 1e-12:
+                return fail("accepted_state_vs_independent_driver",
+                            f"state accepted at t={b} differs from two half steps taken by the harness from the previous "
+                            f"accepted state (and its extra solver state): rel {e:.3e} ({solve.combo_label(combo)})")
+            st_y = y12
     states = [(tsf[0], y0)] + [(b, y) for _, b, y in accepted if y is not None]
     if accepted[-1][2] is None:
         states.append((tsf[-1], ys[-1]))
